@@ -43,8 +43,7 @@ class C37(ValueCheck):
     tiers = {"quick": {"examples": 2500}, "thorough": {"examples": 200000}}
 
     def strategy(self, tier):
-        num = gen.weighted([(5, st.integers(-5, 5).map(lambda n: ["integer", n])), (2, st.builds(gen._rat, st.integers(-7, 7), st.integers(2, 4))),
-                            (1, gen.real_double())])
+        num = gen.weighted([(5, st.integers(-5, 5).map(lambda n: ["integer", n])), (2, st.builds(gen._rat, st.integers(-7, 7), st.integers(2, 4)))])  # exact numbers: eq of float trees (0.0 terms, NaN) is not meaningful
         s = gen.sym(SYMS)
         leaves = gen.weighted([(2, num), (6, s)])
         part = gen.tree(leaves, unary=("neg", "sin", "cos", "exp"), binary=("add", "mul", "sub", "pow"), max_leaves=4,
